@@ -278,15 +278,19 @@ theorem dphidy_odd_Bt (hy Bt Bp R : ℝ) :
     Gen.R.Metric.dphidy hy (-Bt) Bp R = - Gen.R.Metric.dphidy hy Bt Bp R := by
   rw [dphidy_eq, dphidy_eq, mul_neg, neg_div]
 
-/-- the exact parity table.  Reversing the poloidal field (Bp ↦ −Bp, bpsign ↦ −bpsign, hence dphidy ↦ −dphidy):
-all 13 components are invariant except J (and with it Jcheck), which change sign.  Reversing the toroidal field
-(Bt ↦ −Bt, i.e. dphidy ↦ −dphidy alone): g13 (nonorth; identically 0 on orth), g23 and g_23 change sign, everything else
-— including g_12, g_13 (no dphidy dependence at I = 0), J and Jcheck — is invariant. -/
+/-- the exact parity table.  Reversing the poloidal field (Bp ↦ −Bp, bpsign ↦ −bpsign, hence dphidy ↦ −dphidy, with
+the geometric tanBeta of calcBeta held fixed): x = psi changes direction, so on the nonorth branch the x–y and x–z
+components g12, g13, g_12 — each carries exactly one factor `(-bpsign)·tanBeta` — change sign, as do J and Jcheck;
+every other component is invariant (g_13 is identically 0 at I = 0; on the orth branch g12 = g13 = g_12 = g_13 = 0, so
+there only J and Jcheck change sign).  det(g^{ij}) is invariant (the product g12·g13·g23 is odd·odd·even), which is why
+Jcheck = bpsign/√det is odd.  Reversing the toroidal field (Bt ↦ −Bt, i.e. dphidy ↦ −dphidy alone): g13 (nonorth;
+identically 0 on orth), g23 and g_23 change sign, everything else — including g12, g_12, g_13 (no dphidy dependence at
+I = 0), J and Jcheck — is invariant. -/
 theorem sign_parities :
     -- Bp ↦ −Bp, nonorth
-    (EvenBp nonorth.g11 ∧ EvenBp nonorth.g22 ∧ EvenBp nonorth.g33 ∧ EvenBp nonorth.g12 ∧ EvenBp nonorth.g13 ∧
+    (EvenBp nonorth.g11 ∧ EvenBp nonorth.g22 ∧ EvenBp nonorth.g33 ∧ OddBp nonorth.g12 ∧ OddBp nonorth.g13 ∧
      EvenBp nonorth.g23 ∧ OddBp nonorth.J ∧ EvenBp nonorth.g_11 ∧ EvenBp nonorth.g_22 ∧ EvenBp nonorth.g_33 ∧
-     EvenBp nonorth.g_12 ∧ EvenBp nonorth.g_13 ∧ EvenBp nonorth.g_23 ∧ OddBp nonorth.Jcheck) ∧
+     OddBp nonorth.g_12 ∧ EvenBp nonorth.g_13 ∧ EvenBp nonorth.g_23 ∧ OddBp nonorth.Jcheck) ∧
     -- Bp ↦ −Bp, orth
     (EvenBp orth.g11 ∧ EvenBp orth.g22 ∧ EvenBp orth.g33 ∧ EvenBp orth.g12 ∧ EvenBp orth.g13 ∧
      EvenBp orth.g23 ∧ OddBp orth.J ∧ EvenBp orth.g_11 ∧ EvenBp orth.g_22 ∧ EvenBp orth.g_33 ∧
@@ -309,6 +313,29 @@ theorem sign_parities :
     | (rw [orth_Jcheck_eq, orth_Jcheck_eq]; refine neg_div_sqrt_congr ?_; nf_all; unfold det3; ring1)
     | (rw [nonorth_Jcheck_eq, nonorth_Jcheck_eq]; refine div_sqrt_congr rfl ?_; nf_all; unfold det3; ring1)
     | (rw [orth_Jcheck_eq, orth_Jcheck_eq]; refine div_sqrt_congr rfl ?_; nf_all; unfold det3; ring1)
+
+/-- the sign fix of the nonorth x–y terms, stated on the generated formulas: with `Bp = bpsign·aB`, `aB = |Bp| > 0`,
+`bpsign = ±1`, the covariant component is `g_12 = bpsign·hy·tanBeta/(R·|Bp|)` (= `hy·tanBeta/(R·Bp)`: it has the sign
+of bpsign·tanBeta, tanBeta being the geometric angle from calcBeta), and the contravariant one is
+`g12 = −bpsign·R·|Bp|·tanBeta/hy`.  Before the fix both lacked the factor `−bpsign`, i.e. were wrong for bpsign = +1. -/
+theorem nonorth_g_12_geometric {R aB hy d c t s : ℝ} (haB : 0 < aB) (hs : s = 1 ∨ s = -1) :
+    nonorth.g_12 R (s * aB) hy d c t s = s * hy * t / (R * aB) ∧
+    nonorth.g_12 R (s * aB) hy d c t s = hy * t / (R * (s * aB)) ∧
+    nonorth.g12 R (s * aB) hy d c t s = -s * R * aB * t / hy := by
+  have habs : |s * aB| = aB := by
+    rcases hs with rfl | rfl
+    · rw [one_mul, abs_of_pos haB]
+    · rw [neg_one_mul, abs_neg, abs_of_pos haB]
+  have haB0 : aB ≠ 0 := ne_of_gt haB
+  refine ⟨?_, ?_, ?_⟩
+  · rw [nonorth_g_12_eq, habs]; ring
+  · rw [nonorth_g_12_eq, habs]
+    rcases hs with rfl | rfl
+    · rw [one_mul]; ring
+    · by_cases hR : R = 0
+      · subst hR; simp
+      · field_simp
+  · rw [nonorth_g12_eq, habs]; ring
 
 /-! ## 7. displacement products -/
 
@@ -352,6 +379,8 @@ example := g23_matches_zshift_nonorth (R := 2) (Bp := -1 / 2) (hy := 1 / 3) (Bt 
   (tanBeta := 3 / 4) (bpsign := -1) (by norm_num) (by norm_num) (Or.inr rfl) e_abs
 example := g23_matches_zshift_orth (R := 2) (Bp := -1 / 2) (hy := 1 / 3) (Bt := 3 / 10) (cosBeta := 4 / 5)
   (tanBeta := 3 / 4) (bpsign := -1) (by norm_num) (by norm_num) (Or.inr rfl) e_abs
+example := nonorth_g_12_geometric (R := 2) (aB := 1 / 2) (hy := 1 / 3) (d := 1 / 5) (c := 4 / 5) (t := 3 / 4)
+  (s := -1) (by norm_num) (Or.inr rfl)
 /-- zShiftIntegrand_eq: Bp_R = 3/10, Bp_Z = -2/5 (so √(Bp_R²+Bp_Z²) = 1/2 = |Bp|), fpol = 3/5, R = 2, Bt = 3/10 -/
 example := zShiftIntegrand_eq (fun _ _ => 3 / 10) (fun _ _ => -2 / 5) (fun _ => 3 / 5) (fun _ _ => 0) 2 0 (3 / 10)
   (-1 / 2) (1 / 3) (by norm_num) (by
